@@ -339,8 +339,8 @@ func replayHistoryState(c *vrun.Ctx, n *netCtx, st tla.State, realEvery uint32, 
 			return err
 		}
 	}
-	if stats.states <= 3 {
-		c.Sample(map[string]any{"kind": "history", "net": n.name, "chain": st["chain"].Go(), "expect": ex.Go()})
+	if len(chain) >= 5 && (pos == "boundary" || pos == "boundary-bip94") {
+		sampleOnce(c, "history-"+pos, map[string]any{"net": n.name, "chain": st["chain"].Go(), "expect": ex.Go()})
 	}
 	return nil
 }
